@@ -689,7 +689,9 @@ fn generate_server_role(rng: &mut Rng, thorough: bool, which: &str) -> Vec<Case>
             for (i, (kind, b)) in others.iter().enumerate() {
                 if !thorough && i % 2 == 1 && i != 5 { continue; }
                 let mut args = vec![vec![0, 1, 0, 1, 1]];
-                args.push(spec(*kind, 0, 0, 2, 0));
+                // all its bytes, then 300 ms of nothing before the healthy streams are opened: whatever
+                // the driver decides to do with the stream, it is doing it by then
+                args.push(spec(*kind, b.len(), 300, 2, 0));
                 args.push(b2a(b));
                 args.push(spec(0, 0, 0, 0, 0));
                 args.push(b2a(&uni_wt(0, b"uni-after-open-other-stream")));
